@@ -71,7 +71,8 @@ def c16 (op : String) (j : Json) : Option (R Json) :=
   match op with
   | "to_vtk" => some do
       let f ← fldOfJson (← fld j "field")
-      pure (resJ gridToJson (toVtk f))
+      pure (resJ (fun g => (gridToJson g).setObjVal! "active"
+        (Json.arr #[optStrJ (activeAttr f).1, optStrJ (activeAttr f).2])) (toVtk f))
   | "lookup" => some do
       -- cell lookup in the grid built from the field, next to `point2index` of the mesh and the
       -- exact fractional position of every point (boundary comparator)
@@ -107,6 +108,36 @@ def c16 (op : String) (j : Json) : Option (R Json) :=
       let rep ← strOfJson (← fld j "rep")
       let save ← boolOfJson (← fld j "save")
       pure (resJ fldToJson ((toFile f rep save id).bind fromFile))
+  | "session" => some do
+      -- a history of to_file / from_file calls on file names in one directory (optionally starting from
+      -- files that are already there); one result per call
+      let d0 : Dir ← match fldOpt j "dir" with
+        | none => pure ⟨[], []⟩
+        | some dj => do
+          let vs ← listOf (fun e => do
+            let nm ← strOfJson (← fld e "name")
+            let g ← gridOfJson (← fld e "grid")
+            let ls ← linesOfJson e "lines"
+            pure (nm, (⟨g, ls⟩ : VtkFile))) (← fld dj "vtk")
+          let js ← listOf (fun e => do
+            let nm ← strOfJson (← fld e "name")
+            let sc ← sidecarOfJson e "sidecar"
+            pure (nm, sc.getD [])) (← fld dj "json")
+          pure ⟨vs, js⟩
+      let ops ← listOf (fun e => do
+        let k ← strOfJson (← fld e "op")
+        let nm ← strOfJson (← fld e "name")
+        match k with
+        | "write" => do
+          let f ← fldOfJson (← fld e "field")
+          let rep ← strOfJson (← fld e "rep")
+          let save ← boolOfJson (← fld e "save")
+          pure (DOp.write nm f rep save)
+        | "read" => pure (DOp.read nm)
+        | _ => throw s!"unknown session op {k}") (← fld j "ops")
+      pure (Json.mkObj [("ok", listJ (resJ (fun (o : Option Fld) => match o with
+        | none => Json.null
+        | some f => fldToJson f)) (Dir.run id d0 ops))])
   | _ => none
 
 end DFV.Drv
